@@ -1,9 +1,13 @@
 /-
   mp.scope <src:mem|stream> <mis:throw|skip> <doc tokens> <requests>
     doc tokens (comma separated): n t f i<dec> d<hexbits> s<hex> b<hex> a<n> m<n>     (`s-` = empty string)
-    requests (semicolon separated): g<key>=<ty> A<key> O<key> v n=<ty> a o e c        key: s<hex>|i<dec>  ty: i b s d n
+                                  x<type dec>:<hex payload> (ext value, type -128..127 except -1)
+                                  T<sec>:<ns> (timestamp = ext type -1; 0 ≤ sec < 2^34, ns ≤ 999999999: the 32/64-bit layouts)
+    requests (semicolon separated): g<key>=<ty> A<key> O<key> B<key> v n=<ty> a o B r e c
+                                  key: s<hex>|i<dec>|T<sec>:<ns>  ty: i b s d n x (x = CBinTimestamp)
+                                  B / B<key> = OpenBinaryScope, inside it: r = read one byte, e = IsEnd, c = close
     answers: T<scalar> F P<n> K<keys> Y N C E<class> X ?     (a trailing E after the last request = the error that a
-             destructor deferred, rethrown by Finalize())
+             destructor deferred, rethrown by Finalize()); scalar = i<dec> t f s<hex> d<hex16> n <sec>:<ns> <2 hex digits = byte>
   mp.tuple  <src> <mis> <doc tokens>      LoadObject into std::tuple<int64,string,int64,bool>
   mp.tuple  <src> <mis> <doc tokens> obj  LoadObject into struct { that tuple "t"; int64 "z" }: 4 element answers ; z
 -/
@@ -12,6 +16,24 @@ import BSVerif.Scope.VarKey
 
 namespace BSVerif.Driver.Scope
 open BSVerif BSVerif.Scope
+
+/-- `<sec>:<ns>` within the timestamp 32 / timestamp 64 layouts (the 96-bit layout is the recorded C07 class
+    `ts96-seconds-first-read`; it is not generated for the scope ops) -/
+def parseTs (body : String) : Option (Int × Nat) :=
+  match body.splitOn ":" with
+  | [a, b] => do
+    let sec ← parseInt a
+    let ns ← b.toNat?
+    if 0 ≤ sec ∧ sec < 17179869184 ∧ ns ≤ 999999999 then some (sec, ns) else none
+  | _ => none
+
+def parseExt (body : String) : Option Tok :=
+  match body.splitOn ":" with
+  | [a, b] => do
+    let ty ← parseInt a
+    let p ← parseBytes b
+    if -128 ≤ ty ∧ ty ≤ 127 ∧ ty ≠ -1 then some (.ext ty p) else none
+  | _ => none
 
 def parseTok (s : String) : Option Tok :=
   if s == "n" then some .nil
@@ -26,6 +48,8 @@ def parseTok (s : String) : Option Tok :=
     | some 'b' => (parseBytes body).map .bin
     | some 'a' => body.toNat?.map .arr
     | some 'm' => body.toNat?.map .map
+    | some 'x' => parseExt body
+    | some 'T' => (parseTs body).map fun (sec, ns) => .ts sec ns
     | _ => none
 
 def parseKey (s : String) : Option Key :=
@@ -36,10 +60,11 @@ def parseKey (s : String) : Option Key :=
   -- request keys passed to the scope as int32_t (`j`) / uint64_t (`u`): the same mathematical integer
   | some 'j' => (parseInt body).bind fun v => if -2147483648 ≤ v ∧ v < 2147483648 then some (.int v) else none
   | some 'u' => (parseInt body).bind fun v => if 0 ≤ v ∧ v < 18446744073709551616 then some (.int v) else none
+  | some 'T' => (parseTs body).map fun (sec, ns) => .ts sec ns
   | _ => none
 
 def parseTy : String → Option Ty
-  | "i" => some .int | "b" => some .bool | "s" => some .str | "d" => some .flt | "n" => some .nil | _ => none
+  | "i" => some .int | "b" => some .bool | "s" => some .str | "d" => some .flt | "n" => some .nil | "x" => some .ts | _ => none
 
 def parseReq (s : String) : Option Req :=
   if s == "v" then some .visit
@@ -47,6 +72,8 @@ def parseReq (s : String) : Option Req :=
   else if s == "o" then some .openObj
   else if s == "e" then some .isEnd
   else if s == "c" then some .close
+  else if s == "B" then some .openBin
+  else if s == "r" then some .readByte
   else
     let body := (s.drop 1).toString
     match s.toList.head? with
@@ -56,6 +83,7 @@ def parseReq (s : String) : Option Req :=
       | _ => none
     | some 'A' => (parseKey body).map .openArrK
     | some 'O' => (parseKey body).map .openObjK
+    | some 'B' => (parseKey body).map .openBinK
     | some 'n' =>
       match body.splitOn "=" with
       | ["", ty] => (parseTy ty).map .next
@@ -67,9 +95,10 @@ def intStr (v : Int) : String := toString v
 def scStr : Sc → String
   | .int v => s!"i{intStr v}" | .bool true => "t" | .bool false => "f" | .str s => s!"s{hexBytes s}"
   | .flt b => s!"d{hexUnit 64 b}" | .nil => "n"
+  | .ts sec ns => s!"{intStr sec}:{ns}" | .byte b => hexUnit 8 b
 
 def keyStr : Key → String
-  | .str s => s!"s{hexBytes s}" | .int v => s!"i{intStr v}"
+  | .str s => s!"s{hexBytes s}" | .int v => s!"i{intStr v}" | .ts sec ns => s!"T{intStr sec}:{ns}"
 
 def errStr : Err → String
   | .parsing => "parsing" | .mismatched => "mismatched" | .outOfRange => "ser_out_of_range" | .overflow => "overflow"
@@ -87,6 +116,9 @@ def ansStr : Ans → String
 
 def parseSc (s : String) : Option Sc :=
   if s == "t" then some (.bool true) else if s == "f" then some (.bool false) else if s == "n" then some .nil
+  else if s.contains ':' then (parseTs s).map fun (sec, ns) => .ts sec ns
+  -- exactly two hex digits = one byte of a binary scope (no other scalar answer has that shape: `d` is followed by 16 digits)
+  else if s.length == 2 ∧ s.toList.all (fun c => c.isDigit ∨ ('a' ≤ c ∧ c ≤ 'f')) then (parseHexNat s).map .byte
   else
     let body := (s.drop 1).toString
     match s.toList.head? with
